@@ -230,8 +230,45 @@ func runC08(c *Ctx) {
 			okS = okS && f
 		}
 		c.Ob("C08-D3", "adapter.shouldIncludePacket/tests", sip.Pos(), okS, fmt.Sprintf("shouldIncludePacket must test target rooms (or none given) and excluded rooms against the session's rooms; calls: %v", calls))
+		// every session room is tested against the exclusions: the loop around Except.Contains is left
+		// only when the rooms are exhausted or an exclusion matched
+		for _, ex := range findInstrs(sip, setCallPred("Contains", `opts\.Except`)) {
+			okExit := true
+			detail := ""
+			for _, e := range loopExits(ex.Block()) {
+				ifi, isIf := e.from.Instrs[len(e.from.Instrs)-1].(*ssa.If)
+				if !isIf {
+					continue
+				}
+				ct := Term(ifi.Cond)
+				takenTrue := e.from.Succs[0] == e.to
+				switch {
+				case strings.Contains(ct, "rangeindex") && !takenTrue:
+				case strings.HasPrefix(ct, "opts.Except.Contains(") && takenTrue:
+				default:
+					okExit = false
+					detail = fmt.Sprintf("the exclusion loop is also left when `%s` is %v", ct, takenTrue)
+				}
+			}
+			c.Ob("C08-D3", "adapter.shouldIncludePacket/excluded-for-every-room", ex.Pos(), okExit && inLoop(ex.Block()), "every room of the session must be tested against opts.Except; "+detail+": a session in an excluded room is replayed the packet when one of its other rooms matched first")
+		}
 		rt := soleReturnTerm(sip)
-		c.Ob("C08-D3", "adapter.shouldIncludePacket/result", sip.Pos(), strings.Contains(rt, "opts.Rooms.Cardinality() == 0") || strings.Contains(rt, "φ("), "shouldIncludePacket returns "+rt)
+		_ = rt
+		// an exclusion match can never yield true
+		exT := false
+		for _, b := range sip.Blocks {
+			if ret, isR := b.Instrs[len(b.Instrs)-1].(*ssa.Return); isR && len(ret.Results) == 1 && Term(ret.Results[0]) != "false" {
+				if reach, _ := PrunedCanReach(sip, nil, []Assume{{`opts\.Except\.Contains\(\[.*\]\)`, true}}, func(in ssa.Instruction) bool { return in == ret }, nil); reach {
+					// reachable with an exclusion matched: the returned value must then be false (phi edge)
+					if ph, isPhi := ret.Results[0].(*ssa.Phi); !isPhi || !strings.Contains(Term(ph), "false") {
+						if !strings.Contains(Term(ret.Results[0]), "φ(") {
+							exT = true
+						}
+					}
+				}
+			}
+		}
+		c.Ob("C08-D3", "adapter.shouldIncludePacket/excluded-never-included", sip.Pos(), !exT, "shouldIncludePacket can return a non-false constant although an exclusion matched")
 	}
 
 	c.Rule("C08-D4", "persist/restore ordering: on a recoverable disconnect the socket's rooms are read and the session persisted before leaveAll; the session carries sid, pid and those rooms; a restored socket takes sid, pid and rooms from the session and is the only kind marked recovered; RestoreSession is asked with the client's pid and offset", 10)
